@@ -399,3 +399,66 @@ func checkFaultWire(s *vsched.Sched, w *World, p Param) {
 		}
 	}
 }
+
+// S-KINDS: plain, notification and retry-tagged calls on a healthy connection (C04's
+// healthy clauses: exactly one execution each, notification without id and without response).
+func init() {
+	Register(&Scenario{
+		Name:     "kinds",
+		Property: "C04",
+		Cfg:      vsched.Config{Horizon: 5 * time.Second},
+		Params: func(tier string) []Param {
+			b := 1
+			if tier == "thorough" {
+				b = 2
+			}
+			return []Param{
+				{Name: "ws", Bound: b + 1, V: map[string]int{"ws": 1}},
+				{Name: "http", Bound: b, V: map[string]int{"ws": 0}},
+			}
+		},
+		Body: func(s *vsched.Sched, p Param) {
+			w := NewWorld(s, jsonrpc.WithServerPingInterval(0))
+			srv := &FaultSrv{s: s, Calls: map[int]int{}}
+			w.RPC.Register("T", srv)
+			w.Serve()
+			var cli FaultCli
+			var err error
+			if p.I("ws") == 1 {
+				_, err = w.WS("T", &cli, jsonrpc.WithPingInterval(0), jsonrpc.WithTimeout(0), jsonrpc.WithNoReconnect())
+			} else {
+				_, err = w.HTTPClient("T", &cli)
+			}
+			if err != nil {
+				s.Violate("HARNESS: setup: %v", err)
+				return
+			}
+			obs := NewObs()
+			s.Teardown = w.Teardown
+			s.Finish = func() {
+				for name, tok := range map[string]int{"plain": 60, "notify": 61, "retry": 62} {
+					v, ok := obs.Get("ret-" + name)
+					if !ok {
+						s.Violate("C04: %s call never returned on a healthy connection; alive: %s", name, strings.Join(s.Alive(), " "))
+						continue
+					}
+					if !strings.HasSuffix(v, "/<nil>") {
+						s.Violate("C04: %s call failed on a healthy connection: %s", name, v)
+					}
+					if n := srv.Count(tok); n != 1 {
+						s.Violate("C04: the handler of the %s call executed %d times on a healthy connection (want exactly 1)", name, n)
+					}
+				}
+				if p.I("ws") == 1 {
+					checkFaultWire(s, w, p)
+					obs.Set("wire", "%s", wireOrder(w))
+				}
+				s.SetObs(obs.String())
+			}
+			s.Begin()
+			s.Go("c-plain", func() { v, err := cli.Echo(context.Background(), 60); obs.Set("ret-plain", "%d/%s", v, errClass(err)) })
+			s.Go("c-notify", func() { err := cli.Note(context.Background(), 61); obs.Set("ret-notify", "0/%s", errClass(err)) })
+			s.Go("c-retry", func() { v, err := cli.EchoRetry(context.Background(), 62); obs.Set("ret-retry", "%d/%s", v, errClass(err)) })
+		},
+	})
+}
